@@ -660,3 +660,23 @@ Theorem pxrun_all_reported m evt fixws E fuel start end_state lex o c' :
 Proof.
   intros H Hp Hl. destruct (pxrun_sim _ _ _ _ _ _ _ _ _ _ H) as [_ Hs]. rewrite Hp, Hl, !app_nil_r in Hs. exact Hs.
 Qed.
+
+(* the same with the condition on the machine (end-of-input is only shifted into the end state) instead of the
+   end-of-input leaves of the final stack *)
+Theorem pxrun_events_nested_eoi m evt rl E fuel start end_state lex o c' :
+  nested_table evt -> eoi_stops m end_state ->
+  Forall (fun t => t_sym t <> 0) (reals lex) ->
+  ordered (map l_range lex) E ->
+  Forall (fun r => 0 <= fst r) (map l_range lex) -> 0 <= E ->
+  pxrun fuel m evt true start end_state E lex = (o, c') ->
+  Forall (fun e => wf_tree evt rl (x_tree e)) (pc_stack c') ->
+  ok_events (stream_of c') = true /\ in_input E (stream_of c') = true.
+Proof.
+  intros Hnest Heoi Hnz Hord Hpos HE Hrun Hwf. eapply pxrun_events_nested; eauto.
+  destruct (pxrun_sim _ _ _ _ _ _ _ _ _ _ Hrun) as [Hx _]. unfold xrun in Hx.
+  destruct (reals_ordered _ _ Hord) as [Hord' _].
+  refine (xrun_eoi_leaf m evt true E end_state Heoi fuel _ _ _ _ _ Hx).
+  - constructor. exact I.
+  - simpl. pose proof (ordered_Forall_ne _ _ Hord') as H. rewrite Forall_forall in *. intros t Ht.
+    apply (H (tok_range t)). apply in_map. exact Ht.
+Qed.
